@@ -12,6 +12,16 @@ from . import common
 
 ID = 'C10'
 LEVEL = 'exploration'
+# scenario variants and fault kinds mixed into the seeded part (reported in
+# the evidence; DESIGN 14.6 says where each came from)
+VARIANTS = [
+    "second login on the same object (user / handler)",
+    "pipelined plugin requests before the encryption request and (same burst, unsegmented) before set-compression",
+    "late abortive kick (pause, RST) with slow outgoing listener",
+    "reused plugin message ids, ids with bit 31 set",
+    "request sizes T-1/T/T+1",
+    "session-service reply faults"
+]
 RUNS = {'quick': 5000, 'thorough': 200000}
 WALL_CAP = {'quick': 200, 'thorough': 3300}
 
